@@ -110,25 +110,25 @@ Qed.
 
 (* 6c84d6e: the old CleanExit stored nil into p.txnDataChannel / p.appInfoChannel (object o0, frozen
    after NewProcessor) from the signal goroutine: not a step of the protocol ... *)
-Definition old_cleanexit_schedule : list plabel := [
+Definition fixed_6c84d6e_cleanexit_schedule : list plabel := [
   LNew 0; LWr 0 0; LFreeze 0 0; LNew 0; LWr 0 1;
   LDup 0 0; LGo 0 KProc [1] [0]; LDup 0 0; LGo 0 KListener [] [0]; LDup 2 0; LGo 2 KConn [] [0];
   LRd 3 0;                                        (* IncomingTxnData reads p.txnDataChannel *)
   LRel 0 sQuit; LAcq 1 sQuit; LQuit 1; LRecv 0 sQuitAck;
   LWr 0 0;                                        (* p.txnDataChannel = nil *)
   LRd 3 0 ].
-Example old_cleanexit_not_protocol : pexec_stuck pinit old_cleanexit_schedule 0 = Some 16.
+Example fixed_6c84d6e_cleanexit_not_protocol : pexec_stuck pinit fixed_6c84d6e_cleanexit_schedule 0 = Some 16.
 Proof. vm_compute. reflexivity. Qed.
 
 (* ... and the trace it produced is rejected by the checker: the write at position 9 is unordered
    with the connection goroutine's read at position 5 *)
-Definition old_cleanexit_trace : trace := [
+Definition fixed_6c84d6e_cleanexit_trace : trace := [
   EWr 0 0; EWr 0 1; EGo 0 1; EGo 0 2; EGo 2 3;
   ERd 3 0;
   ERel 0 sQuit; EAcq 1 sQuit; ERel 1 sQuitAck; EAcq 0 sQuitAck;
   EWr 0 0;
   ERd 3 0 ].
-Example old_cleanexit_racy : race_free old_cleanexit_trace = false /\ first_race rinit 0 old_cleanexit_trace = Some 10.
+Example fixed_6c84d6e_cleanexit_racy : race_free fixed_6c84d6e_cleanexit_trace = false /\ first_race rinit 0 fixed_6c84d6e_cleanexit_trace = Some 10.
 Proof. vm_compute. split; reflexivity. Qed.
 (* without the store the same trace is fine *)
 Example fixed_cleanexit_ok :
@@ -141,50 +141,58 @@ Example quit_needs_the_ack_edge :
   race_free [EWr 0 1; EGo 0 1; EWr 1 1; ERel 0 sQuit; EAcq 1 sQuit; EWr 0 1] = false.
 Proof. vm_compute. reflexivity. Qed.
 
-(* QueueBatch / doStreaming: the producer writes the capacity counter after the send, the worker
-   reads it (as a Debugf argument) after the receive: unordered *)
-Definition capacity_trace : trace := [
+(* before fc40238: QueueBatch / doStreaming: the producer writes the capacity counter after the
+   send, the worker read it (as a Debugf argument) after the receive: unordered *)
+Definition fixed_fc40238_capacity_trace : trace := [
   EWr 1 12;            (* NewTraceObserver: messagesRemainingCapacity = QueueSize *)
   EGo 1 8;             (* go worker *)
   ERel 1 17;           (* QueueBatch: to.messages <- b *)
   EWr 1 12;            (*             to.messagesRemainingCapacity -= count *)
   EAcq 8 17;           (* doStreaming: msg := <-to.messages *)
   ERd 8 12 ].          (*              Debugf(..., to.messagesRemainingCapacity, ...) *)
-Example capacity_racy : race_free capacity_trace = false /\ first_race rinit 0 capacity_trace = Some 5.
+Example fixed_fc40238_capacity_racy : race_free fixed_fc40238_capacity_trace = false /\ first_race rinit 0 fixed_fc40238_capacity_trace = Some 5.
 Proof. vm_compute. split; reflexivity. Qed.
 (* in the protocol the worker holds no pointer to the counter *)
-Example capacity_not_protocol :
+Example fixed_fc40238_capacity_not_protocol :
   pexec_stuck pinit [LNew 0; LGo 0 KProc [0] []; LGo 1 KToWorker [] []; LRd 2 0] 0 = Some 3.
 Proof. vm_compute. reflexivity. Qed.
 
-(* ---- the two other deviations of the current code the race detector reports (c17.py), as traces *)
+(* ---- regression traces of the two other defects the race detector found (fixed in 00696d1, c8aacc8) *)
 
-(* ConnectPayloadInternal copies *util shallowly: every connect payload points to the one vendors
-   struct (object 3) that Gather filled; OverrideDockerId writes it on the processor while an
-   earlier connect goroutine encodes its payload *)
-Definition vendors_trace : trace := [
+(* before 00696d1: ConnectPayloadInternal copies *util shallowly, every connect payload points to
+   the one vendors struct (object 3) that Gather filled; OverrideDockerId wrote it on the processor
+   while an earlier connect goroutine encoded its payload *)
+Definition fixed_00696d1_vendors_trace : trace := [
   EGo 1 5; EWr 5 3; ERel 5 sUtil; EAcq 1 sUtil;   (* Gather -> utilChan -> p.util *)
   ERd 1 3; EGo 1 6;                               (* considerConnect (app A): go ConnectApplication *)
   EWr 1 3;                                        (* considerConnect (app B, docker id): OverrideDockerId *)
   ERd 6 3 ].                                      (* EncodePayload of app A reads Vendors.Docker *)
-Example vendors_racy : race_free vendors_trace = false /\ first_race rinit 0 vendors_trace = Some 7.
+Example fixed_00696d1_vendors_racy : race_free fixed_00696d1_vendors_trace = false /\ first_race rinit 0 fixed_00696d1_vendors_trace = Some 7.
 Proof. vm_compute. split; reflexivity. Qed.
 (* in the protocol the published utilization data is immutable: the processor cannot write it *)
-Example vendors_not_protocol :
+Example fixed_00696d1_vendors_not_protocol :
   pexec_stuck pinit [LNew 0; LGo 0 KProc [0] []; LGo 1 KUtil [] []; LNew 2; LWr 2 1; LSend 2 sUtil [1] [];
                      LRecv 1 sUtil; LFreeze 1 1; LDup 1 1; LGo 1 KConnect [] [1]; LWr 1 1] 0 = Some 10.
 Proof. vm_compute. reflexivity. Qed.
 
-(* grpcSpanBatchSender.connect stores s.stream (object 14) and starts a receive goroutine that
-   reads the field on every iteration; after an error the worker calls connect again on the same
-   sender while the previous receive goroutine is still looping *)
-Definition stream_trace : trace := [
+(* before c8aacc8: grpcSpanBatchSender.connect stored s.stream (object 14) and started a receive
+   goroutine that read the field on every iteration; after an error the worker calls connect again
+   on the same sender while the previous receive goroutine is still looping *)
+Definition fixed_c8aacc8_stream_trace : trace := [
   EWr 8 14; EGo 8 9; ERd 9 14;       (* connect #1: s.stream = stream; go func(){ s.stream.Recv() ... } *)
   EAcq 8 21;                         (* worker: status := <-to.responseError *)
   EWr 8 14;                          (* connect #2: s.stream = stream *)
   ERd 9 14 ].                        (* old receive goroutine: s.stream.Recv() *)
-Example stream_racy : race_free stream_trace = false /\ first_race rinit 0 stream_trace = Some 4.
+Example fixed_c8aacc8_stream_racy : race_free fixed_c8aacc8_stream_trace = false /\ first_race rinit 0 fixed_c8aacc8_stream_trace = Some 4.
 Proof. vm_compute. split; reflexivity. Qed.
+
+(* after the fixes the same interleavings are race free: the worker no longer reads the counter, the
+   receive goroutine no longer reads the field, OverrideDockerId writes a fresh struct (object 4) *)
+Example after_fixes_ok :
+  race_free [EWr 1 12; EGo 1 8; ERel 1 17; EWr 1 12; EAcq 8 17] = true /\
+  race_free [EWr 8 14; EGo 8 9; EAcq 8 21; EWr 8 14] = true /\
+  race_free [EGo 1 5; EWr 5 3; ERel 5 sUtil; EAcq 1 sUtil; ERd 1 3; EGo 1 6; ERd 1 3; EWr 1 4; ERd 6 3] = true.
+Proof. vm_compute. repeat split; reflexivity. Qed.
 
 (* a harvest goroutine reading a container that is still attached (not detached) is refused *)
 Example attached_container_not_protocol :
